@@ -25,13 +25,13 @@ def register(J):
                                 "C19: syntax/show return non-zero exactly when the library reports an error and then print "
                                 "the error with the file and line of the error location",
                                 "C19: cat prints (and releases) every member of the history once, in processing order"][part - 1]))
-    for rlen, tiers in ((8, Q), (1022, T), (1024, Q), (1030, Q), (1100, T)):
-        J.append(Job("econftool.replace_str.len%d" % rlen, ["C14", "C19", "C04"], "harness/tool.c", sources=[],
+    for rlen, rpos, tiers in ((8, 3, Q), (1022, 1020, T), (1024, 1022, T), (1030, 1028, Q), (1030, 0, Q), (1100, 1023, T), (1100, 1024, T)):
+        J.append(Job("econftool.replace_str.len%d.pos%d" % (rlen, rpos), ["C14", "C19", "C04"], "harness/tool.c", sources=[],
                      stubs=["stubs/strstr_real.c"], unwind=rlen + 8, object_bits=10, tier="T2",
-                     defines=["-DPART=4", "-DRLEN=%d" % rlen, "-I" + REPO + "/util"], tiers=tiers, timeout=900, mem_gb=8,
+                     defines=["-DPART=4", "-DRLEN=%d" % rlen, "-DRPOS=%d" % rpos, "-I" + REPO + "/util"], tiers=tiers, timeout=900, mem_gb=8,
                      nobody_ok=[".*"], extra_cbmc=["--max-field-sensitivity-array-size", "2048"],
                      functions=["replace_str"],
-                     bounds="--delimiters argument of %d bytes with the escape \\\\t at a symbolic position" % rlen,
+                     bounds="--delimiters argument of %d bytes with the escape \\\\t at position %d (concrete text)" % (rlen, rpos),
                      model="M-real",
                      statement="C14/C19: translating escapes in --delimiters never writes outside the static 1 KiB buffer"))
     J.append(Job("errstring", ["C13", "C04"], "harness/errstring.c", sources=["lib/econf_error.c"],
